@@ -729,11 +729,17 @@ def rest_sum_rule(ctx: Ctx, fe, sites, eroles) -> None:
     rem = eroles["cur_bar_capacity_remaining"]
     bounds = [s_ for s_ in ast.walk(closure) if isinstance(s_, ast.Assign) and isinstance(s_.value, ast.Call) and isinstance(s_.value.func, ast.Name)
               and s_.value.func.id == "min" and {src(a) for a in s_.value.args} == {buf, rem}]
-    ctx.check(len(bounds) >= 2 and any(b in list(ast.walk(loop)) for b in bounds), "RESTSUM", "tokenise: a rest never exceeds min(buffer, remaining bar capacity), recomputed every round",
+    def _is_min(e):
+        return isinstance(e, ast.Call) and isinstance(e.func, ast.Name) and e.func.id == "min" and {src(a) for a in e.args} == {buf, rem}
+    # ... or taken on the spot, as the argument the round's rest is chosen from: `v = choose(min(buffer, remaining))` at the top of every round
+    inline_bound = [s_ for s_ in loop.body if isinstance(s_, ast.Assign) and isinstance(s_.targets[0], ast.Name) and s_.targets[0].id == V
+                    and isinstance(s_.value, ast.Call) and len(s_.value.args) == 1 and _is_min(s_.value.args[0])]
+    ctx.check((len(bounds) >= 2 and any(b in list(ast.walk(loop)) for b in bounds)) or (not bounds and len(inline_bound) == 1 and loop.body[0] is inline_bound[0]),
+              "RESTSUM", "tokenise: a rest never exceeds min(buffer, remaining bar capacity), recomputed every round",
               function=fe.qualname, construct="next rest is not bounded by min(rest buffer, remaining bar capacity) in every round",
               message=f"{[short(b) for b in bounds]}: a rest token could cross a bar line", file=fe.file, node=closure)
-    if bounds:
-        nxt = bounds[0].targets[0].id
+    if bounds or inline_bound:
+        nxt = bounds[0].targets[0].id if bounds else "min(buffer, remaining)"
         # temporaries introduced by a refactoring are substituted; the role variables stay symbolic
         for s_ in ast.walk(loop):
             if isinstance(s_, ast.Assign) and len(s_.targets) == 1 and isinstance(s_.targets[0], ast.Name) and s_.targets[0].id not in (buf, V, nxt, rem):
@@ -755,7 +761,8 @@ def rest_sum_rule(ctx: Ctx, fe, sites, eroles) -> None:
                 okd = tv is not None and rr is not None and same_relation(rr, Sym.atom(nxt) - Sym.atom(tv), ">=") and "reversed" in src(ge.generators[0].iter)
             elif isinstance(d.value, ast.Call) and isinstance(d.value.func, ast.Attribute) and isinstance(d.value.func.value, ast.Name) \
                     and d.value.func.value.id in ("self", fe.cls) and p.lookup_method(fe.cls, d.value.func.attr) is not None \
-                    and len(d.value.args) == 1 and not d.value.keywords and isinstance(d.value.args[0], ast.Name) and d.value.args[0].id == nxt:
+                    and len(d.value.args) == 1 and not d.value.keywords and ((isinstance(d.value.args[0], ast.Name) and d.value.args[0].id == nxt)
+                                                                              or (not bounds and _is_min(d.value.args[0]))):
                 # the choice lives in a helper that is handed `nxt`: its returns are judged the same way, with the parameter as `nxt`
                 h = p.lookup_method(fe.cls, d.value.func.attr)
                 ctx.analysed(h)
